@@ -27,7 +27,7 @@ func TestC17(t *testing.T) {
 		Assumptions:    []string{"'different secrets give different identifiers' is decided over the sample (no collision observed), not proved"},
 		NCases: func(tier string) int {
 			if tier == "thorough" {
-				return 2000
+				return 10000
 			}
 			return 160
 		},
